@@ -26,8 +26,8 @@ pub fn runs_for(prop: &str, tier: &str) -> u64 {
         }
     }
     match (prop, tier) {
-        (_, "thorough") => 600_000,
-        _ => 60_000,
+        (_, "thorough") => 300_000,
+        _ => 30_000,
     }
 }
 
@@ -83,7 +83,15 @@ pub fn worker(tier: &str, seed: u64, from: u64, to: u64, extra: &[String]) -> Ag
         let g = world_a::generate(s, thorough, faults);
         let sequential = faults && rng::mix2(s, 99) % 6 == 0;
         let mut sched = rng::Rng::stream(s, "schedule");
-        let r = if sequential { run_case_with(s, &g.program, &mut Mode::Sequential) } else { run_case_with(s, &g.program, &mut Mode::Random { rng: &mut sched, policy: g.policy }) };
+        // one run in twelve contains real parallelism between a starting worker and the loop
+        let racy = !sequential && rng::mix2(s, 0xACE) % 12 == 0;
+        let r = if sequential {
+            run_case_with(s, &g.program, &mut Mode::Sequential)
+        } else if racy {
+            run_case_with(s, &g.program, &mut Mode::Racy { rng: &mut sched, policy: g.policy })
+        } else {
+            run_case_with(s, &g.program, &mut Mode::Random { rng: &mut sched, policy: g.policy })
+        };
         agg.runs += 1;
         match r {
             Err(SchedError::Budget(choices)) => {
@@ -109,6 +117,9 @@ pub fn worker(tier: &str, seed: u64, from: u64, to: u64, extra: &[String]) -> Ag
                 agg.count("loop_panics_caught", out.trace.loop_panics.len() as u64);
                 agg.count("worker_panics", out.trace.worker_panics.len() as u64);
                 agg.count(&format!("policy:{}", if sequential { "sequential" } else { g.policy_name }), 1);
+                if out.trace.racy {
+                    agg.count("runs_with_real_parallelism", 1);
+                }
                 agg.distinct.insert(out.trace.sched_sig);
                 let nontrivial = out.trace.probes.iter().any(|(k, v)| *v > 0 && (k.starts_with("notification-while") || k.starts_with("exit-while") || k.starts_with("client-crash") || k.starts_with("new-key"))) || out.trace.sent.iter().any(|x| !x.fault.is_empty() && x.fault != "final-shutdown");
                 if nontrivial {
@@ -140,7 +151,8 @@ pub fn worker(tier: &str, seed: u64, from: u64, to: u64, extra: &[String]) -> Ag
                     agg.samples.push(json!({"seed": s, "run": i, "policy": g.policy_name, "program_steps": g.program.steps, "choices": out.trace.choices, "events": out.trace.events}));
                 }
                 if selftest {
-                    agg.digests.push((i, rng::mix2(out.trace.digest, out.trace.sched_sig)));
+                    // racy runs are real executions between two hook points: excluded from digest equality by design
+                    agg.digests.push((i, if out.trace.racy { 0 } else { rng::mix2(out.trace.digest, out.trace.sched_sig) }));
                 }
                 if !out.trace.blocked.is_empty() || out.violations.iter().any(|v| v.kind == "exit_hang" || v.kind == "deadlock") {
                     // a server thread that never parks again keeps running (and burning a core) for the rest of
